@@ -130,6 +130,8 @@ class PPWorld:
         self.probes[name] = self.probes.get(name, 0) + n
 
     def violation(self, prop, cls, msg, sig=None):
+        if self.sim.unwinding:
+            return        # library code run while an aborted run is unwound
         self.violations.append([prop, cls, msg, sig or {}])
 
     def latency(self, op, m):
